@@ -40,7 +40,7 @@ class ConnectComp(TimeComponent):
         s = self.spec
         in_rules, out_rules = {}, {}
         for i in s["inputs"]:
-            if i["info"] == "known":
+            if i["info"] in ("known", "known+connect"):
                 self.inputs.add(name=i["name"], time=self.time, grid=NoGrid(), units=i.get("units"))
             else:
                 self.inputs.add(name=i["name"])
@@ -64,8 +64,10 @@ class ConnectComp(TimeComponent):
 
     def _connect(self, start_time):
         s = self.spec
+        # "known+connect": the input was created with its metadata and the component hands the same metadata to
+        # try_connect again (redundant but supported: the helper then exchanges the input's own info)
         ex = {i["name"]: Info(time=self.time, grid=NoGrid(), units=i.get("units")) for i in s["inputs"]
-              if i["info"] == "connect"}
+              if i["info"] in ("connect", "known+connect")}
         pi = {o["name"]: self._info() for o in s["outputs"] if o["info"] == "connect"}
         pd = {}
         for o in s["outputs"]:
@@ -122,7 +124,7 @@ def m_connect(sc):
                 if has("out_exch", ci, oi) and data_av:
                     add("pushed", ci, oi)
             for ii, i in enumerate(c["inputs"]):
-                if i["info"] in ("known", "connect"):
+                if i["info"] in ("known", "connect", "known+connect"):
                     add("in_info", ci, ii)
                 else:
                     oi = next(k for k, o in enumerate(c["outputs"]) if o["name"] == i["info"][1])
